@@ -70,6 +70,14 @@ class SplineMethod(SamplingMethod):
             B = evalf(B)
         except:
             raise Exception("Only linear systems supported in SplineMethod")
+        # ... without an offset: der(x)=u+1 is not represented by the chains of differentiations below
+        try:
+            offset = evalf(ode(x=0, u=0, z=args["z"], p=args["p"], t=args["t"])["ode"])
+            homogeneous = offset.is_zero()
+        except:
+            homogeneous = False
+        if not homogeneous:
+            raise Exception("Only linear systems supported in SplineMethod: the right-hand side has a constant or parametric offset")
         # Obtain chains of differentiations (scalarised)
 
         # Use combined index: v=[x;u]
